@@ -160,6 +160,9 @@ def run_case(fam, case):
     except Exception as e:  # noqa
         return 'VIOLATION', True, _exc_record(fam, case, e)
     if isinstance(r, tuple):
+        if len(r) > 2:
+            # (label, nontrivial, weight): the case bundles `weight` elementary evaluations (e.g. all 256 hash types)
+            return r[0], int(r[2]) if r[1] else 0, None, int(r[2])
         return r[0], bool(r[1]), None
     return (r if r is not None else 'ok'), True, None
 
@@ -175,7 +178,7 @@ def _worker_shard(args):
     if not getattr(fam, '_setup_done', False):
         fam.setup()
         fam._setup_done = True
-    n = nt = 0
+    n = nt = ncases = 0
     outcomes = collections.Counter()
     viols = []
     nviol = 0
@@ -188,8 +191,10 @@ def _worker_shard(args):
     for case in it:
         if _CUR is not None:
             _publish(case)
-        o, nontriv, v = run_case(fam, case)
-        n += 1
+        rr = run_case(fam, case)
+        o, nontriv, v = rr[:3]
+        n += rr[3] if len(rr) > 3 else 1
+        ncases += 1
         nt += nontriv
         outcomes[o] += 1
         if limit:
@@ -201,7 +206,7 @@ def _worker_shard(args):
         if first is None:
             first = short(case)
         last = case
-    return {'fam': fam_idx, 'shard': jsonable(shard), 'n': n, 'nt': nt, 'outcomes': dict(outcomes),
+    return {'fam': fam_idx, 'shard': jsonable(shard), 'n': n, 'nt': nt, 'ncases': ncases, 'outcomes': dict(outcomes),
             'viols': viols, 'nviol': nviol, 'first': first, 'last': short(last) if last is not None else None,
             'digest': dig.hexdigest(), 't': time.time() - t0}
 
@@ -318,7 +323,11 @@ class Run:
         f = _FAMS[r['fam']]
         st = self.fam_stats[f.name]
         st['evaluations'] += r['n']
+        st['cases'] = st.get('cases', 0) + r['ncases']
         st['nontrivial'] += r['nt']
+        if r['t'] > st.get('slowest_shard_s', 0):
+            st['slowest_shard_s'] = round(r['t'], 2)
+            st['slowest_shard'] = short(r['shard'], 120)
         st['outcomes'].update(r['outcomes'])
         st['violations'] += r['nviol']
         st['cpu_s'] += r['t']
